@@ -261,8 +261,10 @@ def run(ctx):
     single = []
     for k, (s, t) in enumerate(configs):
         single += run_batch(ctx, exe, lines_for(progs, WINDOWS, rot=k), "s_%s_%d" % (s, t), threads=t, sched=s, timeout=900)
-    if not ctx.quick:   # tasks inserting tasks
-        single += run_batch(ctx, exe, lines_for(progs[:300], WINDOWS, ins=1), "ins", threads=4, sched="lfq", timeout=900)
+    # tasks inserting tasks: the whole program is inserted by one task (the only inserter while it runs); that task
+    # counts as pending itself, so a threshold of 0 could never be reached from inside it
+    ip = progs[:10] if ctx.quick else progs[:300]
+    single += run_batch(ctx, exe, lines_for(ip, [(2, 1), (2048, 2048), (4, 2)], ins=1), "ins", threads=4, sched="lfq", timeout=900)
     # one datum in several parameters of a task (kept apart: on a tree without fixes/dtd-same-tile-several-params.diff
     # most of these crash or hang, every failure costs a restart of the driver)
     dsingle = []
